@@ -135,6 +135,33 @@ Definition run_Pom (kind : bytes) (a : sx) : option sx :=
               end
           | None => badcase
           end)
+  else if bytes_eqb kind [106;100;107;115;112;101;99] (* jdkspec *) then
+    (* the specification's own evaluation of the jdk condition: 1 holds, 0 does not, 3 no claim *)
+    Some (match a with
+          | SL l => SL (map (fun q => match q with
+                                      | SL [SB spec; SB jdk] =>
+                                          SL [SB spec; SB jdk;
+                                              SI (match MavenModelSpec.jdk_expect spec jdk with
+                                                  | Some true => 1 | Some false => 0 | None => 3 end)%Z]
+                                      | _ => badcase
+                                      end) l)
+          | _ => badcase
+          end)
+  else if bytes_eqb kind [112;111;109;97;112;105] (* pomapi *) then
+    Some (match dec_case a with
+          | Some c =>
+              match effective_resolve (jdk_table (c_table c)) (c_repo c) (c_root c) with
+              | Ok r => SL [SB sym_ok;
+                            SL (map (fun d => let q := requirement_of d in
+                                              SL [SB (rq_name q); SB (rq_version q); sx_bool (rq_opt q); sx_bool (rq_test q);
+                                                  SB (rq_scope q); SB (rq_type q); SB (rq_classifier q);
+                                                  sx_bool (rq_has_excl q); SB (rq_excl q)]) (fst r))]
+              | Err e => if (e =? E_fetch) then SL [SB [110;111;116;102;111;117;110;100]] else SL [SB sym_err]
+              | Panic _ => SL [SB sym_panic]
+              | OutOfFuel => SL [SB sym_fuel]
+              end
+          | None => badcase
+          end)
   else if bytes_eqb kind [112;111;109;100;101;99;111;100;101] (* pomdecode *) then
     (* Decoding is outside the model; what it has to deliver is the record the case describes:
        every text trimmed, a property written without text present with the empty value. *)
